@@ -484,6 +484,49 @@ def dictItems (d : OVal V) : M V (OVal V) :=
   | .dict kvs => pure (.seq .list (kvs.map fun p => .seq .tuple [p.1, p.2]))
   | _ => throw (.unmodelled ".items on a non-dict")
 
+def delKey (k : OVal V) : List (OVal V × OVal V) → M V (List (OVal V × OVal V))
+  | [] => pure []
+  | (k', w) :: rest => do
+    if (← eq k k') then delKey k rest else pure ((k', w) :: (← delKey k rest))
+
+/-- `del d[k]`: the new dict; KeyError when the key is missing -/
+def dictDel (d k : OVal V) : M V (OVal V) :=
+  match d with
+  | .dict kvs => do
+    if (← lookupKey k kvs).isSome then pure (.dict (← delKey k kvs)) else throw .keyError
+  | _ => throw (.unmodelled "item deletion on a non-dict")
+
+/-- `d[k]`: KeyError when the key is missing -/
+def dictItem (d k : OVal V) : M V (OVal V) :=
+  match d with
+  | .dict kvs => do
+    match (← lookupKey k kvs) with
+    | some v => pure v
+    | Option.none => throw .keyError
+  | _ => throw (.unmodelled "item access on a non-dict")
+
+/-- `d.pop(k, *args)`: the new dict and the value; `args` is the tuple of the optional default -/
+def dictPop (d k args : OVal V) : M V (OVal V × OVal V) :=
+  match d with
+  | .dict kvs => do
+    match (← lookupKey k kvs) with
+    | some v => pure (.dict (← delKey k kvs), v)
+    | Option.none =>
+      match args with
+      | .seq _ [dflt] => pure (d, dflt)
+      | .seq _ [] => throw .keyError
+      | _ => throw (.unmodelled "pop with more than one default")
+  | _ => throw (.unmodelled ".pop on a non-dict")
+
+/-- `next(reversed(d))`: the key inserted last -/
+def dictLastKey (d : OVal V) : M V (OVal V) :=
+  match d with
+  | .dict kvs =>
+    match kvs.getLast? with
+    | some p => pure p.1
+    | Option.none => throw (.raised (.obj "StopIteration" []))
+  | _ => throw (.unmodelled "reversed() of a non-dict")
+
 /-- `d.clear()`: the new (empty) dict -/
 def dictClear (d : OVal V) : M V (OVal V) :=
   match d with
